@@ -196,3 +196,211 @@ def make_sphere(sd, o, center):
     k = wavevec(o)
     m = complex(sd["m"][0], sd["m"][1]) if sd["m"][1] else sd["m"][0]
     return Sphere(n=m * o["nm"], r=sd["x"] / k, center=None if center is None else tuple(center))
+
+
+# ---------------------------------------------------------------------------------------------
+# scenes: scatterer + theory + optics + detector, all as plain data
+# ---------------------------------------------------------------------------------------------
+_pl_above = st.fixed_dictionaries({"fx": rounded(-0.3, 1.3, 4), "fy": rounded(-0.3, 1.3, 4), "kgap": logu(0.5, 300.0)})
+
+
+def _mie_theory():
+    return st.fixed_dictionaries({"t": st.just("mie"), "radial": st.booleans(), "full": st.booleans()})
+
+
+def _member(xhi):
+    return st.fixed_dictionaries({"x": size_param(0.3, xhi), "m": rel_index(mlo_hi[0], mlo_hi[1]) if False else rel_index(),
+                                  "dir": st.tuples(st.floats(0.2, math.pi - 0.2), st.floats(0, TWO_PI)).map(list),
+                                  "dist": st.floats(1.02, 1.6)})
+
+
+mlo_hi = (0.5, 2.5)
+
+
+def scene_sphere(xhi=30.0):
+    return st.fixed_dictionaries({"kind": st.just("sphere"), "s": sphere_dimless(0.05, xhi), "pl": _pl_above, "th": _mie_theory()})
+
+
+def scene_layered(xhi=30.0):
+    return st.fixed_dictionaries({"kind": st.just("layered"), "x": size_param(0.1, xhi),
+                                  "fr": st.lists(st.floats(0.1, 1.0), min_size=2, max_size=4),
+                                  "m": st.lists(rel_index(), min_size=4, max_size=4),
+                                  "pl": _pl_above, "th": _mie_theory()})
+
+
+def scene_cluster(theory, kmax=4, xhi=None):
+    if theory == "mie":
+        th = _mie_theory()
+        xhi = xhi or 12.0
+    else:
+        th = st.fixed_dictionaries({"t": st.just("ms"), "meth": st.sampled_from([0, 1]), "radial": st.booleans(),
+                                    "tight": st.booleans()})
+        xhi = xhi or 4.0
+    mem = st.fixed_dictionaries({"x": size_param(0.3, xhi),
+                                 "m": rel_index(False, 0.7, 2.0) if theory != "mie" else rel_index(),
+                                 "dir": st.tuples(st.floats(0.2, math.pi - 0.2), st.floats(0, TWO_PI)).map(list),
+                                 "dist": st.floats(1.02, 1.6)})
+    return st.fixed_dictionaries({"kind": st.just("cluster"), "mem": st.lists(mem, min_size=2, max_size=kmax),
+                                  "pl": _pl_above, "th": th})
+
+
+def scene_axisym(kind):
+    asp = st.floats(math.log(0.3), math.log(3.0)).map(math.exp) if kind == "spheroid" else \
+        st.floats(math.log(0.5), math.log(2.0)).map(math.exp)
+    ang = st.one_of(st.floats(0.0, math.pi), st.sampled_from([0.0, math.pi / 2, math.pi / 4]))
+    return st.fixed_dictionaries({"kind": st.just(kind), "xv": size_param(0.3, 6.0), "aspect": asp,
+                                  "m": rel_index(None, 1.05, 1.8).map(lambda t: [t[0], min(t[1], 0.1)]),
+                                  "rot": st.tuples(ang, ang, ang).map(list),
+                                  "pl": st.fixed_dictionaries({"fx": rounded(-0.3, 1.3, 4), "fy": rounded(-0.3, 1.3, 4),
+                                                               "kgap": logu(20.0, 300.0)}),
+                                  "th": st.just({"t": "tmatrix"})})
+
+
+def scene_lens(which, xhi=20.0):
+    if which == "mielens":
+        th = st.fixed_dictionaries({"t": st.just("mielens"), "lens_angle": rounded(0.1, 1.4, 4)})
+    elif which == "amielens":
+        th = st.fixed_dictionaries({"t": st.just("amielens"), "lens_angle": rounded(0.1, 1.2, 4),
+                                    "ab": st.one_of(rounded(-3, 3, 3), st.lists(rounded(-3, 3, 3), min_size=1, max_size=3))})
+    else:
+        th = st.fixed_dictionaries({"t": st.just("lens"), "lens_angle": rounded(0.1, 1.4, 4),
+                                    "q": st.tuples(st.integers(20, 36), st.integers(20, 36)).map(list),
+                                    "inner": st.just("mie")})
+    return st.fixed_dictionaries({"kind": st.just("sphere"), "s": sphere_dimless(0.1, xhi, None, 1.05, 2.5),
+                                  "pl": st.fixed_dictionaries({"fx": rounded(-0.3, 1.3, 4), "fy": rounded(-0.3, 1.3, 4),
+                                                               "kz": st.one_of(st.floats(-150.0, 300.0), st.floats(-20.0, 40.0))}),
+                                  "th": th})
+
+
+def build_theory(th):
+    from holopy.scattering import Mie, Multisphere, Tmatrix
+    from holopy.scattering.theory import MieLens, AberratedMieLens, Lens
+    t = th["t"]
+    if t == "mie":
+        return Mie(compute_escat_radial=th.get("radial", True), full_radial_dependence=th.get("full", True))
+    if t == "ms":
+        kw = dict(qeps1=1e-9, qeps2=1e-12, eps=1e-9) if th.get("tight") else {}
+        return Multisphere(meth=th.get("meth", 1), compute_escat_radial=th.get("radial", False), **kw)
+    if t == "tmatrix":
+        return Tmatrix()
+    acc = th.get("acc") or {}
+    if t == "mielens":
+        return MieLens(lens_angle=th["lens_angle"], calculator_accuracy_kwargs=dict(acc))
+    if t == "amielens":
+        return AberratedMieLens(spherical_aberration=th["ab"], lens_angle=th["lens_angle"],
+                                calculator_accuracy_kwargs=dict(acc))
+    if t == "lens":
+        inner = Mie(False, False) if th.get("inner", "mie") == "mie" else Tmatrix()
+        return Lens(th["lens_angle"], inner, quad_npts_theta=th["q"][0], quad_npts_phi=th["q"][1])
+    raise ValueError(t)
+
+
+def is_lens(th):
+    return th["t"] in ("mielens", "amielens", "lens")
+
+
+def build_scene(sc, o, det, scale=1.0):
+    """Returns (scatterer, theory, info).  `scale` multiplies every length (unit tests of C04)."""
+    from holopy.scattering import Sphere, Spheres, Spheroid, Cylinder
+    k = wavevec(o)
+    unit = o["wl"] / o["nm"]
+    nm = o["nm"]
+    kind = sc["kind"]
+    th = sc["th"]
+    theory = build_theory(th)
+    xmin, xmax, ymin, ymax, zmax = detector_xy_extent(det, unit)
+    pl = sc["pl"]
+
+    def cidx(m):
+        return (complex(m[0], m[1]) if m[1] else m[0]) * nm
+
+    if kind == "sphere":
+        r = sc["s"]["x"] / k
+        if "kz" in pl:
+            wx = max(xmax - xmin, 2 * unit); wy = max(ymax - ymin, 2 * unit)
+            c = [xmin + pl["fx"] * wx, ymin + pl["fy"] * wy, zmax + pl["kz"] / k]
+        else:
+            c = place(pl, det, unit, r, k)
+        s = Sphere(n=cidx(sc["s"]["m"]), r=r, center=tuple(c))
+        return s, theory, {"centers": [c], "radii": [r]}
+    if kind == "layered":
+        nl = len(sc["fr"])
+        fr = np.cumsum(sc["fr"]); fr = fr / fr[-1]
+        radii = [float(f * sc["x"] / k) for f in fr]
+        for i in range(1, nl):
+            if radii[i] <= radii[i - 1]:
+                radii[i] = radii[i - 1] * 1.0001
+        c = place(pl, det, unit, radii[-1], k)
+        s = Sphere(n=[cidx(m) for m in sc["m"][:nl]], r=radii, center=tuple(c))
+        return s, theory, {"centers": [c], "radii": [radii[-1]]}
+    if kind == "cluster":
+        rs = [m["x"] / k for m in sc["mem"]]
+        c0 = np.array(place(pl, det, unit, rs[0], k))
+        cs = [c0]
+        for m, r in zip(sc["mem"][1:], rs[1:]):
+            th_, ph_ = m["dir"]
+            u = np.array([math.sin(th_) * math.cos(ph_), math.sin(th_) * math.sin(ph_), math.cos(th_)])
+            d = m["dist"] * (rs[0] + r)
+            for _ in range(60):
+                p = c0 + u * d
+                if all(np.linalg.norm(p - q) >= 1.01 * (r + rq) for q, rq in zip(cs, rs)):
+                    break
+                d *= 1.2
+            cs.append(p)
+        # keep every sphere above the detector plane
+        low = min(c[2] - r for c, r in zip(cs, rs))
+        need = zmax + 0.5 / k
+        if low < need:
+            cs = [c + np.array([0, 0, need - low]) for c in cs]
+        spheres = [Sphere(n=cidx(m["m"]), r=r, center=tuple(float(t) for t in c)) for m, r, c in zip(sc["mem"], rs, cs)]
+        return Spheres(spheres, warn=False), theory, {"centers": [list(map(float, c)) for c in cs], "radii": rs}
+    if kind in ("spheroid", "cylinder"):
+        xv = sc["xv"]; asp = sc["aspect"]
+        rv = xv / k
+        if kind == "spheroid":
+            # volume 4/3 pi a^2 c with c = asp * a
+            a = rv / asp ** (1.0 / 3.0); cc = asp * a
+            rmax = max(a, cc)
+            c = place(pl, det, unit, rmax, k)
+            s = Spheroid(n=cidx(sc["m"]), r=(a, cc), rotation=tuple(sc["rot"]), center=tuple(c))
+        else:
+            # volume pi (d/2)^2 h with h = asp * d
+            dd = (16.0 / 3.0 / asp) ** (1.0 / 3.0) * rv; h = asp * dd
+            rmax = 0.5 * math.hypot(dd, h)
+            c = place(pl, det, unit, rmax, k)
+            s = Cylinder(n=cidx(sc["m"]), h=h, d=dd, rotation=tuple(sc["rot"]), center=tuple(c))
+        return s, theory, {"centers": [c], "radii": [rmax]}
+    raise ValueError(kind)
+
+
+def fixed_z_detector(max_side=10, max_pts=10):
+    """detectors whose points share one z (required by the lens theories)."""
+    pts = st.lists(st.tuples(rounded(-15, 15, 4), rounded(-15, 15, 4)), min_size=1, max_size=max_pts).map(
+        lambda l: {"kind": "points", "pts": [[a, b, 0.0] for a, b in l]})
+    return st.one_of(grid_detector(max_side), pts)
+
+
+def case_strategy(kinds, max_side=8, any_norm=False):
+    """{"o", "det", "sc"} with constraints between them respected by construction."""
+    opts = []
+    for kd in kinds:
+        if kd == "sphere":
+            opts.append(st.fixed_dictionaries({"o": optics(any_norm), "det": any_detector(max_side), "sc": scene_sphere()}))
+        elif kd == "layered":
+            opts.append(st.fixed_dictionaries({"o": optics(any_norm), "det": any_detector(max_side), "sc": scene_layered()}))
+        elif kd == "cluster_mie":
+            opts.append(st.fixed_dictionaries({"o": optics(any_norm), "det": any_detector(max_side), "sc": scene_cluster("mie")}))
+        elif kd == "cluster_ms":
+            opts.append(st.fixed_dictionaries({"o": optics(any_norm), "det": any_detector(max_side), "sc": scene_cluster("ms")}))
+        elif kd in ("spheroid", "cylinder"):
+            opts.append(st.fixed_dictionaries({"o": optics(False, pol=st.just([1.0, 0.0])), "det": any_detector(max_side),
+                                               "sc": scene_axisym(kd)}))
+        elif kd in ("mielens", "amielens", "lens"):
+            opts.append(st.fixed_dictionaries({"o": optics(any_norm), "det": fixed_z_detector(max_side), "sc": scene_lens(kd)}))
+        else:
+            raise ValueError(kd)
+    return st.one_of(*opts)
+
+
+def scene_label(sc):
+    return sc["kind"] + "+" + sc["th"]["t"]
